@@ -369,4 +369,55 @@ theorem EncodeBool_refines (fuel : Nat) (hf : 10 ≤ fuel) (p : Bytes) (off tag 
       store_panic p _ _ (by simp only [List.length_append, List.length_singleton]; omega)
     simp only [hst, EncOut.ofRes, s1bad h1]
 
+/-! ### `EncodeBytes`: two indexed stores and a `copy` -/
+
+theorem copyAt_eq (q : Bytes) (lo : Nat) (v : Bytes) : Go.copyAt q lo v = writeAt q lo (v.take (q.length - lo)) := rfl
+
+/-- **`(*Encoder).EncodeBytes` of the source refines `Enc.step (.bytes tag v)`**: key and length prefix are indexed stores
+    (panic when they do not fit), the payload is a `copy` — SILENTLY truncated when the buffer is short, and the cursor
+    still advances by `len(v)` — exactly as the model says. -/
+theorem EncodeBytes_refines (fuel : Nat) (hf : 10 ≤ fuel) (p : Bytes) (off tag : BitVec 64) (v : Bytes)
+    (hp : p.length < 2 ^ 62) (hv : v.length < 2 ^ 62) (hoff : off.toNat ≤ p.length) :
+    match ({ buf := p, off := off.toNat } : Enc).step (.bytes tag.toNat v) with
+    | .ok e' => ∃ s, Encoder_EncodeBytes fuel p off tag v = .ret () s ∧ s.e_p = e'.buf ∧ s.e_offset.toNat = e'.off
+    | .panic => Encoder_EncodeBytes fuel p off tag v = .panic
+    | .err _ => False := by
+  have hp63 : p.length < 2 ^ 63 := by omega
+  have hwt : wtLen = (2#64).toNat := rfl
+  obtain ⟨N, hNdef, hN⟩ : ∃ N : BitVec 64, N = BitVec.ofNat 64 v.length ∧ N.toNat = v.length := ⟨_, rfl, by simp; omega⟩
+  generalize hT : encTag tag.toNat wtLen = T
+  obtain ⟨s1ok, s1bad⟩ := stage (EncodeTag fuel (p.drop off.toNat) tag 2#64) (·.dest) p off T hp63 hoff
+    (fun h => by rw [← hT, hwt] at h ⊢; exact EncodeTag_ok fuel _ tag 2#64 hf h)
+    (fun h => by rw [← hT, hwt] at h; exact EncodeTag_short fuel _ tag 2#64 hf h)
+  unfold Encoder_EncodeBytes Encoder_EncodeBytes.body
+  simp only [Go.seq, hoff, if_true, Enc.step, hT]
+  by_cases h1 : off.toNat + T.length ≤ p.length
+  · obtain ⟨c1, hc1, hw1, ha1⟩ := s1ok h1
+    have hlen1 : (writeAt p off.toNat T).length = p.length := writeAt_length h1
+    have hst1 := store_ok p off.toNat T h1
+    obtain ⟨s2ok, s2bad⟩ := stage (EncodeVarint fuel ((writeAt p off.toNat T).drop (off + BitVec.ofNat 64 T.length).toNat) N)
+      (·.dest) (writeAt p off.toNat T) (off + BitVec.ofNat 64 T.length) (encVarint v.length)
+      (by rw [hlen1]; exact hp63) (by rw [hlen1, ha1]; exact h1)
+      (fun h => by have := EncodeVarint_ok fuel _ N hf (by rw [hN]; exact h); rw [hN] at this; exact this)
+      (fun h => EncodeVarint_short fuel _ N hf (by rw [hN]; exact h))
+    simp only [hc1, hw1, hlen1, ha1, h1, if_true, hst1, Bind.bind, Res.bind, ← hNdef]
+    by_cases h2 : off.toNat + T.length + (encVarint v.length).length ≤ p.length
+    · obtain ⟨c2, hc2, hw2, ha2⟩ := s2ok (by rw [ha1, hlen1]; exact h2)
+      rw [ha1] at hc2 hw2 ha2
+      have hlen2 : (writeAt (writeAt p off.toNat T) (off.toNat + T.length) (encVarint v.length)).length = p.length := by
+        rw [writeAt_length (by rw [hlen1]; exact h2), hlen1]
+      have hst2 := store_ok (writeAt p off.toNat T) (off.toNat + T.length) (encVarint v.length) (by rw [hlen1]; exact h2)
+      have hadv3 : (off + BitVec.ofNat 64 T.length + BitVec.ofNat 64 (encVarint v.length).length + N).toNat =
+          off.toNat + T.length + (encVarint v.length).length + v.length := by
+        rw [BitVec.toNat_add, ha2, hN, Nat.mod_eq_of_lt (by omega)]
+      simp only [hc2, hw2, hst2, Enc.copy, Enc.copyAdv, Enc.cap, hlen2, ha2, h2, if_true, EncOut.ofRes, copyAt_eq]
+      exact ⟨_, rfl, rfl, by first | exact hadv3 | (rw [hNdef] at hadv3; exact hadv3)⟩
+    · have hst2 := store_panic (writeAt p off.toNat T) (off.toNat + T.length) (encVarint v.length) (by rw [hlen1]; exact h2)
+      simp only [hst2, EncOut.ofRes]
+      have hb := s2bad (by rw [ha1, hlen1]; exact h2)
+      rw [ha1] at hb
+      first | rw [hb] | (rw [hNdef] at hb; rw [hb]) | erw [hb] | simp only [hb]
+  · have hst1 := store_panic p off.toNat T h1
+    simp only [hst1, Bind.bind, Res.bind, EncOut.ofRes, s1bad h1]
+
 end Csproto.Bridge.EncoderFuncs
